@@ -155,6 +155,16 @@ def lex_comment(
     then returns what they return.
     """
 
+    if (
+        preserve["state"] == Preserve.COMMENT
+        and preserve["end"] is not None
+        and len(preserve["end"]) == 1
+    ):
+        # Inside a comment that runs to a single character (e.g. '#'
+        # to end of line), everything up to that character belongs to
+        # it, including '/*' and '*/'.
+        return lex_preserve(char, lexeme, preserve)
+
     if char in c_info["multi_chars"]:
         return lex_multichar_comments(
             char,
